@@ -49,6 +49,9 @@ pub(crate) struct World {
     /// block bodies (Sync protocol answers) travel slower than everything else: they are
     /// delivered only when no other answer is in flight
     pub slow_blocks: bool,
+    /// (with slow_blocks) bodies are released only at the end of a timer round that left nothing
+    /// else in flight - i.e. also after exchanges that a timer starts (a proof request)
+    pub very_slow_blocks: bool,
 }
 
 impl World {
@@ -61,6 +64,7 @@ impl World {
             cp_batch: 2000,
             cp_interval,
             slow_blocks: false,
+            very_slow_blocks: false,
         }
     }
     pub(crate) fn add_peer(&mut self, id: usize, chain: usize, height: u64) {
@@ -276,7 +280,7 @@ impl Sim {
                 }
             }
         }
-        if self.queue.is_empty() {
+        if self.queue.is_empty() && !self.world.very_slow_blocks {
             self.queue.extend(self.held.drain(..));
         }
     }
@@ -336,6 +340,9 @@ impl Sim {
         for t in [2u64, 1, 0] {
             self.cm().tick_filter(t, true);
             self.pump_out();
+        }
+        if self.queue.is_empty() {
+            self.queue.extend(self.held.drain(..));
         }
     }
 
